@@ -357,6 +357,19 @@ func fragScenario(r *rand.Rand, kind string, honest bool, exec func(op string) s
 		if kind == "frag" && r.Intn(5) == 0 {
 			res = exec(fmt.Sprintf("frag-tellfail %d %s %d", src, hx.Hex(payload), hx.Pick(r, 0, 0, 1, 2, 7)))
 			res = strings.TrimPrefix(res, "err ")
+			if strings.HasPrefix(res, "pkts ") && r.Intn(2) == 0 {
+				// the sender tries again with a message of the same shape (same number of fragments) right away: its
+				// fragments must not complete what is left of the failed one
+				told = append(told, payload)
+				toldSrc = append(toldSrc, src)
+				for _, p := range strings.Split(strings.TrimPrefix(res, "pkts "), ",") {
+					if p != "" {
+						pool = append(pool, fragPkt{src, hx.UnHex(p), len(told) - 1})
+					}
+				}
+				payload = hx.Bytes(r, size)
+				res = exec(fmt.Sprintf("frag-tell %d %s", src, hx.Hex(payload)))
+			}
 		} else {
 			res = exec(fmt.Sprintf("%s-tell %d %s", kind, src, hx.Hex(payload)))
 		}
